@@ -17,12 +17,14 @@ import (
 	"net/netip"
 	"sort"
 	"strings"
+	"time"
 
 	"github.com/Jigsaw-Code/outline-ss-server/service"
 
 	"verif/engine"
 	"verif/harness/hk"
 	"verif/harness/world"
+	"verif/rt/vnet"
 	"verif/rt/vrt"
 )
 
@@ -370,6 +372,71 @@ func authInputs(ctx *engine.Ctx) {
 	}
 }
 
+// ---- attribution through the handler ----
+
+// attribCase: a stream that authenticates under key Pos of a 5-key list and then asks for something
+// the server cannot do (unknown address type, truncated address, private destination, a target that
+// refuses): whatever happens next, the connection is attributed to that key's ID, once.
+type attribCase struct {
+	Pos  int    `json:"pos"`
+	Kind string `json:"kind"`
+}
+
+func attribScenario(ac attribCase) *engine.Scenario {
+	var auths []string
+	var status string
+	keys := world.MixedKeys(5)
+	sc := &engine.Scenario{Name: "auth-attribution", Opt: vrt.Options{Horizon: time.Hour}}
+	sc.Body = func() {
+		auths, status = nil, ""
+		vnet.Reset()
+		hk.ResetLogs()
+		w := world.NewTCP(keys, -1, 59*time.Second)
+		w.Start()
+		k := keys[ac.Pos]
+		var wire []byte
+		switch ac.Kind {
+		case "bad-type":
+			wire = world.EncodeStream(k, 3, []byte{9, 1, 2, 3, 4, 0, 80}, []byte("x"))
+		case "trunc-addr":
+			wire = world.EncodeStream(k, 3, world.Addr("93.184.216.34:80")[:3])
+		case "private":
+			wire = world.EncodeStream(k, 3, world.Addr("10.1.2.3:80"), []byte("x"))
+		case "refused":
+			wire = world.EncodeStream(k, 3, world.Addr("93.184.216.34:81"), []byte("x"))
+		}
+		cl := world.Dial("203.0.113.7:0")
+		cl.Send(wire, 0)
+		vrt.Sleep(time.Second)
+		cl.CloseWrite()
+		cl.ReadAll()
+		cl.Close()
+		vrt.WaitIdle()
+		w.Stop()
+		if len(w.Conns) == 1 {
+			auths, status = w.Conns[0].Auth, w.Conns[0].Status()
+		}
+	}
+	sc.Check = func(x *vrt.Exec) (string, bool, []*engine.Finding) {
+		fs := hk.Generic(x, hk.Opts{})
+		if len(fs) == 0 && (len(auths) != 1 || auths[0] != keys[ac.Pos].ID) {
+			fs = append(fs, &engine.Finding{Sig: "not-attributed{" + ac.Kind + "}", Msg: fmt.Sprintf("a stream encrypted under key %s (then %s, closed with %s) was attributed to %v, want exactly [%s]", keys[ac.Pos].ID, ac.Kind, status, auths, keys[ac.Pos].ID)})
+		}
+		return fmt.Sprint(auths, status), true, fs
+	}
+	return sc
+}
+
+func attribCases() []attribCase {
+	var out []attribCase
+	for pos := 0; pos < 4; pos++ {
+		for _, k := range []string{"bad-type", "trunc-addr", "private", "refused"} {
+			out = append(out, attribCase{pos, k})
+		}
+	}
+	return out
+}
+
 // ---- concurrency ----
 
 func concScenario(variant int) *engine.Scenario {
@@ -395,6 +462,14 @@ func concScenario(variant int) *engine.Scenario {
 			who = [2]*world.Key{keys[1], keys[1]}
 			from = [2]net.Addr{ips[0], ips[1]}
 		}
+		if variant == 2 {
+			// two clients behind one address using one key at the same time; the key was last
+			// used from another address (the last-client hint flips while a lookup is under way)
+			who = [2]*world.Key{keys[1], keys[1]}
+			from = [2]net.Addr{ips[0], ips[0]}
+			authOnce(auth, keys[1], 90, ips[1])
+			authOnce(auth, keys[3], 91, ips[0])
+		}
 		var ts []*vrt.Thread
 		for i := 0; i < 2; i++ {
 			i := i
@@ -404,6 +479,9 @@ func concScenario(variant int) *engine.Scenario {
 			}))
 		}
 		ts = append(ts, vrt.Spawn("update", func() {
+			if variant == 2 {
+				return
+			}
 			if variant == 0 {
 				cl.Update(world.MakeList(newKeys))
 			} else {
@@ -431,12 +509,12 @@ func concScenario(variant int) *engine.Scenario {
 				add("snapshot-not-permutation", perm)
 			}
 			who := [2]*world.Key{keys[0], keys[1]}
-			if variant == 1 {
+			if variant >= 1 {
 				who = [2]*world.Key{keys[1], keys[1]}
 			}
 			for i := 0; i < 2; i++ {
 				allowed := allowedIDs(keys, who[i])
-				stillThere := len(allowedIDs(newKeys, who[i])) > 0 || variant == 1
+				stillThere := len(allowedIDs(newKeys, who[i])) > 0 || variant >= 1
 				switch {
 				case r[i].ok && !allowed[r[i].id]:
 					add("wrong-id", fmt.Sprintf("thread %d: key %s authenticated as %q", i, who[i].ID, r[i].id))
@@ -456,12 +534,17 @@ func concScenario(variant int) *engine.Scenario {
 }
 
 func concScenarios() []*engine.Scenario {
-	return []*engine.Scenario{concScenario(0), concScenario(1)}
+	return []*engine.Scenario{concScenario(0), concScenario(1), concScenario(2)}
 }
 
 func init() {
 	hk.Register("C01", func(ctx *engine.Ctx) {
 		authInputs(ctx)
+		for i, ac := range attribCases() {
+			if ctx.Mine(int64(i)) {
+				ctx.RunCase("auth-attribution", "E", attribScenario(ac), ac, nil)
+			}
+		}
 		authStates(ctx)
 		bound := 3
 		if ctx.Tier == "thorough" {
@@ -479,6 +562,13 @@ func init() {
 			json.Unmarshal(rp.Input, &ac)
 			hk.Guard(sub, "auth-states", ac, func() { runAuthCase(sub, ac) })
 			return sub.Res.Findings
+		case "auth-attribution":
+			var ac attribCase
+			if err := json.Unmarshal(rp.Input, &ac); err != nil {
+				return []*engine.Finding{{Sig: "BROKEN:bad-input", Msg: err.Error()}}
+			}
+			rp.Choices = nil
+			return engine.ReplayCase("auth-attribution", attribScenario(ac), rp)
 		case "auth-inputs":
 			var ic inputCase
 			json.Unmarshal(rp.Input, &ic)
